@@ -15,6 +15,16 @@ import numpy as np
 _CTX = decimal.Context(prec=2000)
 
 
+def dec_written(x):
+    """Dec record of a statutory constant AS WRITTEN (0.01 in a parameter file means one hundredth, not the double next to it):
+    floats are taken at their shortest decimal representation."""
+    if isinstance(x, (np.floating,)):
+        x = float(x)
+    if isinstance(x, float) and math.isfinite(x):
+        return dec(decimal.Decimal(repr(x)))
+    return dec(x)
+
+
 def dec(x):
     """Exact Dec record for an int / float / Decimal / numpy scalar."""
     if isinstance(x, (bool, np.bool_)):
